@@ -55,11 +55,18 @@ structure Error where
   msg : String
   deriving Repr, DecidableEq
 
+/-- a Go pointer that the translated code only copies (a pointer into the syntax tree, `Src` fields): never
+dereferenced, compared or assigned through there; `id = 0` is `nil` -/
+structure Ref where
+  id : Nat
+  deriving Repr, DecidableEq
+
 /-- zero value of a Go type (`var x T`, missing map entry, omitted struct field) -/
 class GoZero (α : Type) where
   zero : α
 
 instance : GoZero Int := ⟨0⟩
+instance : GoZero Ref := ⟨⟨0⟩⟩
 instance : GoZero Bool := ⟨false⟩
 instance : GoZero String := ⟨""⟩
 instance : GoZero Rat := ⟨0⟩
@@ -124,6 +131,12 @@ def slice {α : Type} (xs : List α) (lo hi : Int) : Outcome (List α) :=
 /-- `compare.Ordered(a, b)` = `cmp.Compare(a, b)` on integers and strings: -1, 0, +1 -/
 def cmpOrdered {α : Type} [LT α] [DecidableLT α] (a b : α) : Int :=
   if a < b then -1 else if b < a then 1 else 0
+
+/-- `compare.Order` (-1, 0, +1) of a Lean `Ordering` -/
+def ordGo : Ordering → Int
+  | .lt => -1
+  | .eq => 0
+  | .gt => 1
 
 /-- the entry of `m` at `k`, or `c` when there is none (`dict.GetDefault` before the entry is stored) -/
 def getDefault {κ ν : Type} [DecidableEq κ] (m : AMap κ ν) (k : κ) (c : ν) : ν := (AMap.find? m k).getD c
